@@ -16,7 +16,7 @@ def run(tier, seed, replay_rows=None):
     ck.assumptions = ["free-running runs: events are logged by the harness's own scenario function / hook function under one mutex; "
                       "only invariants that are sound for that log order are checked (see DESIGN.md)"]
     # MECHANISM_MCS: exhaustive model checking of the mechanism specifications behind the run-level clauses
-    for mod, cfg in (("TriggerPool", "MC_TriggerPool_limit.cfg"), ("ContinuousPool", "MC_ContinuousPool.cfg"), ("ContinuousPool", "MC_ContinuousPool_exact.cfg")):
+    for mod, cfg in (("TriggerPool", "MC_TriggerPool_limit.cfg"), ("MC_ContinuousPool", "MC_ContinuousPool.cfg"), ("MC_ContinuousPool", "MC_ContinuousPool_exact.cfg")):
         r = vlib.run_tlc(mod, cfg, workers=16, timeout=1800)
         vlib.require_tlc_ok(r, cfg)
         ck.add_tlc(cfg, r)
